@@ -7,7 +7,7 @@
    behaviour before the fix, kept for the ..._without_F16 theorems. *)
 From Coq Require Import List NArith ZArith Bool.
 From JV Require Import Bytes Msg ErrsJson ErrsJsonProofs Errs ErrsProofs.
-From JV Require Json JsonProofs JsonTree JsonEq ErrsMore Wire WireProofs WireSpecs WireMore ErrsWire.
+From JV Require Json JsonProofs JsonTree JsonEq ErrsMore ErrsScan Wire WireProofs WireSpecs WireMore ErrsWire.
 Import ListNotations.
 Local Open Scope Z_scope.
 
@@ -320,23 +320,29 @@ Theorem c14_squeeze_is_tree_compaction : forall d q : bytes, Json.compact d = So
 Proof. exact ErrsMore.squeeze_is_compact. Qed.
 Print Assumptions c14_squeeze_is_tree_compaction.
 
-(* error data arrive JSON-equal as VALUES (Json.parse), not only as token streams.
-   _partial: the hypothesis Json.valid d = true is what is missing for
-     wire_data d = Some d' -> d <> [] -> Json.parse d' = Json.parse d;
-   it would follow from "compact d <> None -> Json.valid d = true" (the byte scanner accepts only what
-   the tree parser accepts), which is not proved. *)
-Theorem c14_data_json_equal_value_partial : forall d d' : bytes,
-  wire_data d = Some d' -> d <> [] -> Json.valid d = true ->
-  Json.parse d' = Json.parse d /\ Json.compact d = Some d' /\ Json.parse d <> None.
-Proof. exact ErrsMore.data_json_equal_value_partial. Qed.
-Print Assumptions c14_data_json_equal_value_partial.
+(* the byte scanner accepts only what the tree parser accepts (errs/ErrsScan.v: every accepting run of the
+   scanner is read back as a well-formed tree whose exact text is the input) *)
+Theorem c14_scanner_accepts_only_json : forall d d' : bytes, compact d = Some d' -> Json.valid d = true.
+Proof. exact ErrsScan.scanner_accepts_valid. Qed.
+Print Assumptions c14_scanner_accepts_only_json.
 
-Theorem c14_error_verbatim_value_partial : forall r c m d d',
+(* hence: whenever the scanner model of json.Marshal(RawMessage) yields a result, the tree model yields the same *)
+Theorem c14_compact_models_agree_all : forall d d' : bytes, compact d = Some d' -> Json.compact d = Some d'.
+Proof. exact ErrsScan.compact_models_agree_all. Qed.
+Print Assumptions c14_compact_models_agree_all.
+
+(* error data arrive JSON-equal as VALUES (Json.parse), not only as token streams *)
+Theorem c14_data_json_equal_value : forall d d' : bytes,
+  wire_data d = Some d' -> d <> [] ->
+  Json.parse d' = Json.parse d /\ Json.compact d = Some d' /\ Json.parse d <> None.
+Proof. exact ErrsScan.data_json_equal_value. Qed.
+Print Assumptions c14_data_json_equal_value.
+
+Theorem c14_error_verbatim_value : forall r c m d d',
   c <> Cancelled -> c <> DeadlineExceeded -> valid_utf8 m = true -> wire_data d = Some d' ->
-  d <> [] -> Json.valid d = true ->
-  call r (EJrpc c m d) = OErr (EJrpc c m d') /\ Json.parse d' = Json.parse d.
-Proof. exact ErrsMore.error_verbatim_value_partial. Qed.
-Print Assumptions c14_error_verbatim_value_partial.
+  call r (EJrpc c m d) = OErr (EJrpc c m d') /\ (d <> [] -> Json.parse d' = Json.parse d) /\ (d = [] -> d' = []).
+Proof. exact ErrsScan.error_verbatim_value. Qed.
+Print Assumptions c14_error_verbatim_value.
 
 (* -- Client.Batch: no filterError; an entry is the *Error of the wire, never a context sentinel ---------- *)
 
